@@ -597,7 +597,7 @@ class NpIdx(Base):
     name = "npidx"
     exhaustive = False  # exhaustive for 1-d / 2-d / small 3-d shapes; the largest 3-d shapes are sampled in quick
     batch = 4000
-    budget_share = 0.6
+    budget_share = 0.4
 
     def cases(self, tier, rng):
         m = 3 if tier == "quick" else 4
@@ -652,7 +652,7 @@ class AttrViews(Base):
     """`data[cid]` and `data[cid, view]` for every attribute kind."""
     name = "attr"
     exhaustive = False
-    budget_share = 1.6
+    budget_share = 1.5
 
     def cases(self, tier, rng):
         m = 3 if tier == "quick" else 4
@@ -707,7 +707,7 @@ class MaskViews(Base):
     """`data.get_mask(state)` and `data.get_mask(state, view)` for every selection class."""
     name = "mask"
     exhaustive = False
-    budget_share = 3.0
+    budget_share = 1.6
     known_findings_uncounted = True
 
     def cases(self, tier, rng):
@@ -800,7 +800,7 @@ class IndexedBase(Base):
             return ["N"]
         vs = list(basic_views(rsh))
         if len(vs) > 24:
-            keep = [v for v in vs if v in ("N", "E")] + rng.sample(vs, min(len(vs), 10 if tier == "quick" else 40))
+            keep = [v for v in vs if v in ("N", "E")] + rng.sample(vs, min(len(vs), 8 if tier == "quick" else 40))
             vs = keep
         return vs + array_views(rsh, rng, 3 if tier == "quick" else 8)
 
@@ -808,7 +808,7 @@ class IndexedBase(Base):
 class IdxAttr(IndexedBase):
     """`IndexedData.get_data(cid, view)` for every index tuple, before and after a change of indices."""
     name = "idxattr"
-    budget_share = 1.2
+    budget_share = 1.6
 
     def cases(self, tier, rng):
         m = 3 if tier == "quick" else 4
@@ -889,7 +889,7 @@ IDX_STATES = ["range", "range_pix", "ineq_pix", "category", "roi_pix_a", "roi_pi
 class IdxMask(IndexedBase):
     """`IndexedData.get_mask(state, view)` for every index tuple, before and after a change of indices."""
     name = "idxmask"
-    budget_share = 1.2
+    budget_share = 1.6
 
     def cases(self, tier, rng):
         m = 3 if tier == "quick" else 4
@@ -951,7 +951,7 @@ class IdxStat(Base):
     before and after a change of indices."""
     name = "idxstat"
     exhaustive = False  # quick skips some (index tuple, selection) pairs at random
-    budget_share = 0.8
+    budget_share = 0.5
 
     WHATS = [["stat", "sum"], ["stat", "minimum"], ["stat", "maximum"], ["hist"], ["stataxis", "sum"], ["stataxis", "maximum"]]
 
@@ -1017,7 +1017,7 @@ class OutOfDomain(Base):
     whether the view of the result agrees with the viewed result (branch counts in the evidence);
     it is never a violation."""
     name = "ood"
-    budget_share = 0.3
+    budget_share = 0.2
 
     def cases(self, tier, rng):
         for sh in shapes_upto(3, 3):
